@@ -21,7 +21,7 @@ func init() {
 			"C19.normalize — the header normalisation lower-cases and then maps every rune through a function that returns either its argument, only under a test r >= 'a' && r <= 'z', or the constant '_'; " +
 			"C19.errexit — errors of reading (except io.EOF, which ends the input), AddRow, Flush, both bbolt.Open calls and the big writer's constructor reach the command's error result; the cobra RunE closure returns it and main exits with a non-zero constant when Execute fails; " +
 			"C19.txrelease — a writer that keeps a bbolt write transaction open between calls has a method that rolls it back, and the command runs it (deferred) on every path after constructing the writer, so a failure cannot leave DB.Close waiting on a pending transaction (the command would hang instead of exiting non-zero); " +
-			"C19.flush — the successful return is preceded by Flush on every path; C19.excl — the big-mode output is opened with O_EXCL and the scratch database without O_CREATE (as C16). " +
+			"C19.flush — the successful return is preceded by Flush on every path; C19.excl — the big-mode output (and the output of a writer type of the command's own) is opened with O_EXCL and the scratch database without O_CREATE, also where the open sits in a helper of the command (as C16, same census). " +
 			"NOT decided: observational identity of normal and --big output (C05's value-level clause); CSV parsing itself (encoding/csv, trusted); distinctness of headers after normalisation (excluded by the property).",
 		assumptions: []string{"encoding/csv default behaviour", "cobra runs RunE and returns its error from Execute", "go/ssa, dominance"},
 	})
@@ -41,14 +41,14 @@ func runC19(c *Ctx) {
 	decide, why := hookDecider(c)
 	n := 0
 	for _, s := range boltOpenSites(c) {
-		if s.fn != c.a.CreateCmd {
+		// the command's sites: in createCmd itself, in its helpers and in the Flush of a writer type of its own (the census,
+		// boltOpenSites, follows the callers and binds a helper's path parameter to find out whether the file is the
+		// command's temporary file)
+		if s.anchor != c.a.CreateCmd {
 			continue
 		}
 		n++
-		role := "output"
-		if fromCreateTemp(s.call.Call.Args[0]) {
-			role = "scratch"
-		}
+		role := s.role
 		key := fmt.Sprintf("createCmd#%d (%s)", n, role)
 		pos := c.w.ipos(s.call)
 		if decide == nil {
@@ -61,7 +61,7 @@ func runC19(c *Ctx) {
 		}
 		d := decide(*s.exists, *s.notExists)
 		if role == "output" {
-			c.r.check(d.kind == "excl", "C19.excl", key, "opened with O_EXCL", "the big-mode output file is opened without O_EXCL ("+d.kind+"): an existing output would be modified", pos)
+			c.r.check(d.kind == "excl", "C19.excl", key, "opened with O_EXCL", "an output file of the create command is opened without O_EXCL ("+d.kind+"): an existing output would be modified", pos)
 		} else {
 			c.r.check(d.kind == "nocreate", "C19.excl", key, "opened without O_CREATE", "the scratch database is opened with a hook that does not clear O_CREATE ("+d.kind+")", pos)
 		}
